@@ -61,7 +61,6 @@ ASSUMPTIONS = [
     'a user supplied GasPressureAdj is only generated for gas species with add_gas_P_adj not False; '
     'ConstantMode is not combined with reload cycles (it is not in the JSON registry: C11) and G is not compared '
     'when a ConstantMode is attached (its own G attribute is independent of its H and S)',
-    'a species built with add_gas_P_adj=False and then reloaded is telemetry only (to_dict does not carry the flag)',
     'return shapes are normalised (size-1 array vs scalar is shape, not value)',
     'CNT counts the model getters of Cp, H, S (G is H - S and may legitimately be assembled either way); it presumes '
     'that models are evaluated one temperature at a time, as _get_mix_quantity does (a vectorised rewrite would '
@@ -706,10 +705,9 @@ def run_case(spec, ctx):
             return
         obj = new
         if disabled and hist['history'] == 'reloaded':
-            # to_dict does not carry the flag: telemetry only, and stop (the model is undefined from here)
-            key = 'disabled_then_reloaded_adj_count_%d' % _count_adj(obj)
-            ctx.extra[key] = ctx.extra.get(key, 0) + 1
-            return
+            # the user disabled the adjustment: a reload must not bring it back (was telemetry until the
+            # flag was made persistent in /repo; now decided by the M2 count below, want_adj == 0)
+            ctx.cls('hist:disabled_then_reloaded')
         ctx.check('M2', _count_adj(obj) == want_adj, m2, got=_count_adj(obj), want=want_adj, step=k)
         last = k == len(spec['history']) - 1
         ev.m1(obj, hist, spec['Ts'][-1:], spec['arrays'][:1] if not last else spec['arrays'])
